@@ -5,6 +5,7 @@ GEN: seeded stylesheet ASTs (tools/xslgen.py): template rules with modes/priorit
 RUN: harness/xslt.cpp; the result tree is recorded from the FormatterListener events, before any serializer.
 TV : Trace_C01.tla: tree = XSLTSem!Transform(stylesheet, document)."""
 import os, random, json, subprocess
+from xml.sax.saxutils import escape
 import vlib, xdm, xpgen, tlaparse, xslgen
 from vlib import ROOT
 from props import c02
@@ -110,6 +111,86 @@ def avt_family(res, wd, quick):
     return len(events), len(events) - st["dropped"] - len(rejects)
 
 
+MC_FMT = os.path.join(ROOT, "spec/mc/MC_FormatNumber.tla")
+TRACE_FMT = os.path.join(ROOT, "spec/trace/Trace_C01fmt.tla")
+DFS_DEFAULT = {"dec": 46, "grp": 44, "minus": 45, "percent": 37, "permille": 8240, "zero": 48, "digit": 35, "patsep": 59,
+               "inf": xdm.cps("Infinity"), "nan": xdm.cps("NaN")}
+# two named decimal formats: European separators with their own NaN / infinity strings; exotic symbols for everything
+DFS_NAMED = {"eu": dict(DFS_DEFAULT, dec=44, grp=46, nan=xdm.cps("nan!"), inf=xdm.cps("inf")),
+             "odd": dict(DFS_DEFAULT, dec=124, grp=95, minus=126, percent=112, permille=113, zero=48, digit=64, patsep=33)}
+FMT_PICTURES = ["0", "#", "#0", "0.0", "0.00", "#.#", "#.##", "0.0#", "#,##0", "#,##0.00", "#,###", "#,#00.0#", "000", "00.0", "0%", "#%", "0.0%", "#\u2030",
+                "a0b", "(0)", "0.0;(0.0)", "#,##0.0;n#", "x#y;z#w", "x0.0y;z#.##w", "0 u", "[#,##0.00]", "##,##,##0", "#,####", "0;0 cr"]
+
+
+def localize(pic, dfs):
+    """a picture written with the default symbols, in the symbols of dfs"""
+    m = {46: dfs["dec"], 44: dfs["grp"], 45: dfs["minus"], 37: dfs["percent"], 8240: dfs["permille"], 48: dfs["zero"], 35: dfs["digit"], 59: dfs["patsep"]}
+    return "".join(chr(m.get(ord(ch), ord(ch))) for ch in pic)
+
+
+def fmt_family(res, wd, quick, rng):
+    """format-number(): every picture of a pool x a number table (halves, eighths for half-even rounding, grouping sizes, percent / per-mille,
+    negative sub-patterns, NaN, infinities) x the default and two named decimal formats; FormatNumber.tla computes the expected strings."""
+    cfg = os.path.join(wd, "fmt.cfg")
+    open(cfg, "w").write("SPECIFICATION Spec\nINVARIANT Defined\nINVARIANT HasDigit\nINVARIANT NegIsMinusPos\n")
+    r = vlib.tlc_mc(MC_FMT, cfg, name="c01fmt", workers=2, timeout=1500, extra=["-noGenerateSpecTE"])
+    res.add_mc(r, "MC_FormatNumber (golden values of the JDK 1.1 DecimalFormat fragment; laws over 21 pictures x 34 numbers)")
+    ms = [0, 1, 2, 3, 4, 5, 7, 8, 9, 12, 20, 28, 36, 79, 80, 100, 796, 8004, 9876, 79999, 98760, 130000]
+    nums = [{"k": "fin", "neg": n, "m": m} for m in ms for n in (False, True)] + [{"k": "nan", "neg": False, "m": 0}, {"k": "inf", "neg": False, "m": 0}, {"k": "inf", "neg": True, "m": 0}]
+    def numtext(x):
+        if x["k"] == "nan": return "number('x')"
+        if x["k"] == "inf": return ("-1" if x["neg"] else "1") + " div 0"
+        t = xpgen.num_text(x["m"])
+        return ("-" + t) if x["neg"] else t
+    combos = []
+    for name, dfs in [(None, DFS_DEFAULT)] + sorted(DFS_NAMED.items()):
+        for pic in FMT_PICTURES:
+            for x in nums:
+                combos.append((name, dfs, localize(pic, dfs), x))
+    if quick:
+        combos = rng.sample(combos, 1200)
+    fdir = os.path.join(wd, "fmt"); os.makedirs(fdir)
+    open(os.path.join(fdir, "in.xml"), "w").write("<r/>")
+    decl = "".join('<xsl:decimal-format name="%s" decimal-separator="%s" grouping-separator="%s" minus-sign="%s" percent="%s" per-mille="%s" zero-digit="%s" digit="%s" pattern-separator="%s" NaN="%s" infinity="%s"/>'
+                   % (n, chr(d["dec"]), chr(d["grp"]), chr(d["minus"]), chr(d["percent"]), chr(d["permille"]), chr(d["zero"]), chr(d["digit"]), chr(d["patsep"]),
+                      "".join(map(chr, d["nan"])), "".join(map(chr, d["inf"]))) for n, d in sorted(DFS_NAMED.items()))
+    cases, chunks = [], [combos[i:i + 40] for i in range(0, len(combos), 40)]
+    for k, ch in enumerate(chunks):
+        body = "".join("<v><xsl:value-of select=\"format-number(%s, '%s'%s)\"/></v>" % (numtext(x), escape(pic), (", '%s'" % name) if name else "") for name, dfs, pic, x in ch)
+        open(os.path.join(fdir, "f%d.xsl" % k), "w").write('<xsl:stylesheet version="1.0" xmlns:xsl="http://www.w3.org/1999/XSL/Transform">%s<xsl:template match="/"><o>%s</o></xsl:template></xsl:stylesheet>' % (decl, body))
+        cases.append({"id": k, "dir": fdir, "xsl": "f%d.xsl" % k, "trace": "none", "select": False})
+    exe = vlib.build_harness("xslt")
+    cp_ = os.path.join(fdir, "cases.ndjson"); vlib.write_ndjson(cp_, cases)
+    out = subprocess.run([exe, cp_], capture_output=True, text=True, timeout=1200)
+    dones = {}
+    for line in out.stdout.splitlines():
+        try:
+            ev = json.loads(line)
+        except ValueError:
+            continue
+        if ev.get("e") == "Done":
+            dones[ev["id"]] = ev
+    events = []
+    for k, ch in enumerate(chunks):
+        dn = dones.get(k)
+        if dn is None:
+            res.violation("transformation process died in the format-number family (rc=%s): %s" % (out.returncode, out.stderr[-200:]), [{"xsl": open(os.path.join(fdir, "f%d.xsl" % k)).read()}]); break
+        vs = []
+        if dn["status"] == 0:
+            o = [x for x in dn["tree"] if x["k"] == "elem" and x["qn"] == "o"]
+            vs = ["".join(t["v"] for t in v["c"] if t["k"] == "text") for v in o[0]["c"] if v["k"] == "elem"] if o else []
+        for j, (name, dfs, pic, x) in enumerate(ch):
+            events.append({"e": "Fmt", "x": x, "pic": xdm.cps(pic), "dfs": dfs, "status": dn["status"], "out": xdm.cps(vs[j]) if j < len(vs) else [],
+                           "text": "format-number(%s, '%s'%s)" % (numtext(x), pic, (", '%s'" % name) if name else ""), "msg": dn["msg"][:150]})
+    rejects, st = vlib.tlc_validate_sharded(TRACE_FMT, events, tag="c01fmt", stateless=True, timeout=3000)
+    for rj in rejects:
+        ev = events[rj["line"]]
+        res.violation("%s: %s | %s" % (ev["text"], rj["msg"][:260], ev["msg"]), [ev])
+    res.notes["format_number_cases"] = len(events)
+    res.notes["format_number_not_judged"] = st["dropped"]
+    return len(events), len(events) - st["dropped"] - len(rejects)
+
+
 def run(res, tier, seed):
     rng = random.Random(seed)
     quick = tier == "quick"
@@ -186,6 +267,8 @@ def run(res, tier, seed):
             res.violation("status %s %s | %s" % (ev["status"], ev["msg"][:100], rj["msg"][:300]),
                           [dict(ev, xsl=all_xsl(cdir), xml=open(os.path.join(cdir, "in.xml")).read(), flatdoc=flats[ev["doc"] - 1], flataux=[flats[a - 1] for a in ev["aux"]])])
     navt, navt_ok = avt_family(res, wd, quick)
+    nfmt, nfmt_ok = fmt_family(res, wd, quick, rng)
+    navt, navt_ok = navt + nfmt, navt_ok + nfmt_ok
     res.notes["dropped_unjudged"] = st["dropped"]
     rejected = {rj["line"] for rj in rejects}
     res.cov["traces_validated_against_impl"] = len(events) - len(rejects) - st["dropped"] + navt_ok
